@@ -198,6 +198,9 @@ Definition p_range (a : arr) : res arr :=
     match ash a, zs with
     | [], [z] => Ok (Arr TNum [Z.to_nat (Z.abs z)] (map ENum (zrange z)))
     | [k], _ =>
+        (* an axis of length 0: no index at all (said separately only so that the reference does not
+           enumerate the indices of the other axes first) *)
+        if existsb (fun z => (z =? 0)%Z) zs then Ok (Arr TNum (map (fun z => Z.to_nat (Z.abs z)) zs ++ [k]) []) else
         Ok (Arr TNum (map (fun z => Z.to_nat (Z.abs z)) zs ++ [k])
                 (map ENum (concat (cart (map zrange zs)))))
     | _, _ => Err       (* "The rank of the input must be 0 or 1" *)
